@@ -132,10 +132,24 @@ func checkExamples(u *JobUnit, m protoreflect.Message, report func(sym, detail s
 			continue
 		}
 		exs := u.FieldExamples[string(m.Descriptor().FullName())+"."+string(fd.Name())]
-		if len(exs) == 0 || fd.IsList() || fd.IsMap() {
+		if len(exs) == 0 || fd.IsMap() {
 			continue
 		}
-		got := scalarString(fd, m.Get(fd))
+		if od := fd.ContainingOneof(); od != nil && !od.IsSynthetic() && !m.Has(fd) {
+			continue // another member of the oneof is the selected one
+		}
+		var gots []string
+		if fd.IsList() {
+			l := m.Get(fd).List()
+			for k := 0; k < l.Len(); k++ {
+				gots = append(gots, scalarString(fd, l.Get(k)))
+			}
+			if len(gots) == 0 {
+				gots = []string{"<empty list>"}
+			}
+		} else {
+			gots = []string{scalarString(fd, m.Get(fd))}
+		}
 		var parsed []string
 		for _, e := range exs {
 			switch fd.Kind() {
@@ -158,10 +172,16 @@ func checkExamples(u *JobUnit, m protoreflect.Message, report func(sym, detail s
 		if len(parsed) == 0 {
 			continue // no parsable example: not judged
 		}
-		hit := false
-		for _, p := range parsed {
-			if p == got {
-				hit = true
+		hit, got := true, ""
+		for _, g := range gots {
+			one := false
+			for _, p := range parsed {
+				if p == g {
+					one = true
+				}
+			}
+			if !one {
+				hit, got = false, g
 			}
 		}
 		if !hit {
